@@ -22,7 +22,7 @@ import random
 import common
 from common import MachineryFailure
 
-_KEYF = ("clause", "eq", "from", "to", "form", "dt", "rdt", "vsig")
+_KEYF = ("clause", "eq", "from", "to", "form", "dt", "rdt", "vsig", "reg", "tf")
 
 
 def _check_chunk(ck, part, label, off):
@@ -77,7 +77,7 @@ def _nontrivial(c, units):
     d = c["init"]["d"]
     for st in c["h"]:
         if st["cand"]:
-            out.add((st["eq"], d, units[st["tu"] - 1]["d"], st["en"], c["init"]["u"], st["tu"], st["k"], c["init"]["dt"], c["init"]["sh"], c["init"]["pi"]))
+            out.add((st["eq"], d, units[st["tu"] - 1]["d"], st["en"], c["init"]["u"], st["tu"], st["k"], c["init"]["dt"], c["init"]["sh"], c["init"]["pi"], c["init"]["reg"], st["tf"]))
         if st["fo"] and st["exp"]["k"] == "ok":
             d = units[st["tu"] - 1]["d"]
     return out
@@ -103,6 +103,7 @@ def run(ck):
         "observed floats are matched to the specification's symbolic values with the library's own constants (unyt.physical_constants, long names) at 40 digits; rtol = the coarsest float type an object of the history had: 1e-12 (float64/complex128, integers), 1e-5 (float32/complex64), 2e-2 (float16)",
         "a number claim is made only where the formula value, in the result's unit, lies in the normal range (margin 4) of the result's float type",
         "54 unit spellings (SI, prefixed, CGS, compound, other) of 13 dimensions; no offset (degC/degF) units; 13 dtypes (int8..int64, uint8..uint64, float16/32/64, complex64/128; all but float64 only in coherent SI units with values the dtype holds exactly or to its precision; complex data has zero imaginary part); shapes quantity / array / contiguous view / strided view (views of float and complex buffers only)",
+        "registry dimension: the default registry, or one custom registry (Msun=2e30 kg, AU=1.5e11 m, eV=1.6e-19 J, me=9e-31 kg, pc=3e16 m; code_length, code_mass, code_time, code_temperature) for float64 quantities/arrays; the value of a spelling is the base_value the library gives it in the registry the history's object was created in; a Unit object of the default registry is passed only for spellings that mean the same in both registries",
         "keyword settings: defaults (mu=0.6, gamma=5/3 as documented), mu=3/4, gamma=4/3, mu=gamma=7/5; keywords are only passed to equivalences that take them",
         "known findings are matched on (clause, equivalence, from, to, form, dtype, result dtype, numbers of the input)",
     ]
@@ -124,6 +125,7 @@ def run(ck):
     # the other dtypes: with 3 target spellings per dimension a diagonal of 3 keeps every (equivalence, from, to, dtype,
     # shape, entry point) combination, each with one of the target spellings
     diag2 = ck.q(3, 2)
+    diag3 = ck.q(6, 2)  # objects of the custom registry x {string, Unit of the input's registry, Unit of the default registry}
     ml = ck.q(2, 3)
     depth = ck.q(4, 6)
     cfg_hist = _cfg(ck, "MC_C09_hist", "MC_C09_hist_run", MaxLen=ml, ExportLen=ml, Diag=ck.q(3, 2))
@@ -132,10 +134,10 @@ def run(ck):
     with cf.ThreadPoolExecutor(nthreads) as pool:
         # 1. model-level laws of the transcribed branch tables; 2. the three case generators - all four concurrently
         f_laws = pool.submit(ck.tlc, "MC_C09", "MC_C09_laws", workers=1, label="laws: Total/Formula/Inv/Path/Twin/Value/Gate on the branch tables", timeout=1800)
-        f_single = [pool.submit(ck.tlc, "MC_C09", _cfg(ck, "MC_C09_single", f"MC_C09_single_run{part}", NUin=nu, NUout=nu, Diag=(diag if part == 1 else diag2), Part=part),
+        f_single = [pool.submit(ck.tlc, "MC_C09", _cfg(ck, "MC_C09_single", f"MC_C09_single_run{part}", NUin=nu, NUout=nu, Diag={1: diag, 2: diag2, 3: diag3}[part], Part=part),
                                 workers=1, required_actions=["Next"], timeout=3000,
-                                label=f"single step ({what}): all entry points, units rank<={nu} (diagonal {diag if part == 1 else diag2}), all values/shapes")
-                    for part, what in ((1, "float64/int64"), (2, "the 11 other dtypes"))]
+                                label=f"single step ({what}): all entry points, units rank<={nu} (diagonal {({1: diag, 2: diag2, 3: diag3}[part])}), all values/shapes")
+                    for part, what in ((1, "float64/int64"), (2, "the 11 other dtypes"), (3, "custom registry x target forms"))]
         f_hist = pool.submit(ck.tlc, "MC_C09", cfg_hist, workers=1, required_actions=["Next"], timeout=6000,
                              label=f"histories of {ml} calls inside one equivalence (copy/in-place/views/repeats/narrow dtypes)")
         f_sim = pool.submit(ck.tlc, "MC_C09", cfg_sim, workers=1, simulate=ck.q(8, 80), depth=depth + 1, timeout=3000,
@@ -162,8 +164,8 @@ def run(ck):
             if len(cases) < 10:
                 raise MachineryFailure(f"too few histories exported ({label})")
             mid = cases[len(cases) // 2]
-            ck.sample({"instance": label, "init": {k: mid["init"][k] for k in ("d", "u", "pi", "dt", "sh")},
-                       "requests": [{k: st[k] for k in ("en", "eq", "k", "tu", "fo")} for st in mid["h"]]})
+            ck.sample({"instance": label, "init": {k: mid["init"][k] for k in ("d", "u", "pi", "dt", "sh", "reg")},
+                       "requests": [{k: st[k] for k in ("en", "eq", "k", "tu", "fo", "tf")} for st in mid["h"]]})
             for c in cases:
                 nontrivial.update(_nontrivial(c, units))
             traces = ck.pmap("impl_c09", "observe", cases, common=cm, chunk_timeout=3000)
@@ -178,7 +180,7 @@ def run(ck):
             # the simulator evaluates the exporting invariant on every successor of the last state: keep a seeded sample per family
             f = {}
             for c in cases:
-                f.setdefault(json.dumps([c["init"], [[st[k] for k in ("en", "eq", "k", "tu", "fo")] for st in c["h"][:-1]]], sort_keys=True), []).append(c)
+                f.setdefault(json.dumps([c["init"], [[st[k] for k in ("en", "eq", "k", "tu", "fo", "tf")] for st in c["h"][:-1]]], sort_keys=True), []).append(c)
             return [c for k in sorted(f) for c in rnd.sample(f[k], min(ck.q(12, 20), len(f[k])))]
 
         r_hist = f_hist.result()
@@ -186,11 +188,13 @@ def run(ck):
         ck.cov["bound"]["hist"] = {"MaxLen": ml, "histories_exported": len(r_hist.by_tag("HIST")), "histories_replayed": len(cs)}
         cs = replay(f_sim.result(), "sim", fam)
         ck.cov["bound"]["sim"] = {"depth": depth, "histories": len(cs)}
+        cs = replay(f_single[2].result(), "single-registry")
+        n3 = len(cs)
         cs = replay(f_single[1].result(), "single-narrow")
         ck.cov["dtypes_single"] = sorted({c["init"]["dt"] for c in cs} | {"f8", "i8"})
         n2 = len(cs)
         cs = replay(f_single[0].result(), "single-wide")
-        ck.cov["bound"]["single"] = {"NUin": nu, "NUout": nu, "Diag": [diag, diag2], "histories": len(cs) + n2, "float64/int64": len(cs), "other dtypes": n2}
+        ck.cov["bound"]["single"] = {"NUin": nu, "NUout": nu, "Diag": [diag, diag2, diag3], "histories": len(cs) + n2 + n3, "float64/int64": len(cs), "other dtypes": n2, "custom registry": n3}
         # verdicts in a fixed order, whatever the completion order of the validation runs
         for job in sorted(jobs, key=lambda j: j[0]):
             _collect(ck, job, stats)
